@@ -1,0 +1,15 @@
+//go:build verif
+
+package handshake
+
+import (
+	"github.com/gauss-project/aurorafs/pkg/aurora"
+	"github.com/gauss-project/aurorafs/pkg/p2p/libp2p/internal/handshake/pb"
+)
+
+// VerifParseCheckAck runs the unexported parseCheckAck of a handshake service configured with
+// networkID on an Ack carrying the given address record (verification harness only).
+func VerifParseCheckAck(networkID uint64, underlay, overlay, signature []byte) (*aurora.Address, error) {
+	s := &Service{networkID: networkID}
+	return s.parseCheckAck(&pb.Ack{Address: &pb.BzzAddress{Underlay: underlay, Signature: signature, Overlay: overlay}})
+}
